@@ -61,15 +61,17 @@ extern char g_ch;                          /* rot13: the input byte at g_k */
 /* appends only: earlier bytes of the string are not touched */
 #define APPEND_ASSIGNS(...) __CPROVER_assigns(__VA_ARGS__ ret->size, __CPROVER_object_from(ret->data + ret->size))
 
+/* C11_ENC_T / C11_DEC_T: the element type through which base64_encode / base64_decode read their input, as declared in the source
+ * (x_b64_alphabets.h, written by the extraction); the specification always speaks about the OCTET value (uint8_t) of an input element */
 /* ===============================================================================================================
  * base64_encode */
 
 /* one complete 24-bit group -> four characters (loop body) */
-void base64_encode_block(vstr* ret, const uint8_t* data, size_t offset, const char* alphabet)
+void base64_encode_block(vstr* ret, const C11_ENC_T* data, size_t offset, const char* alphabet)
 RET_APPEND_REQ(4)
 DATA_REQ(offset, 3)
 ALPHA_REQ_NONNULL
-__CPROVER_requires(g_s0 == data[offset] && g_s1 == data[offset + 1] && g_s2 == data[offset + 2])
+__CPROVER_requires(g_s0 == (uint8_t)data[offset] && g_s1 == (uint8_t)data[offset + 1] && g_s2 == (uint8_t)data[offset + 2])
 __CPROVER_ensures(ret->size == __CPROVER_old(ret->size) + 4)
 __CPROVER_ensures(ret->data[ret->size - 4] == B64_ENC0(g_s0, g_s1, g_s2, 3, g_url))
 __CPROVER_ensures(ret->data[ret->size - 3] == B64_ENC1(g_s0, g_s1, g_s2, 3, g_url))
@@ -78,11 +80,11 @@ __CPROVER_ensures(ret->data[ret->size - 1] == B64_ENC3(g_s0, g_s1, g_s2, 3, g_ur
 APPEND_ASSIGNS();
 
 /* final quantum of 16 bits -> three characters and one '=' */
-void base64_encode_tail2(vstr* ret, const uint8_t* data, size_t end_offset, const char* alphabet)
+void base64_encode_tail2(vstr* ret, const C11_ENC_T* data, size_t end_offset, const char* alphabet)
 RET_APPEND_REQ(4)
 DATA_REQ(end_offset, 2)
 ALPHA_REQ_NONNULL
-__CPROVER_requires(g_s0 == data[end_offset] && g_s1 == data[end_offset + 1])
+__CPROVER_requires(g_s0 == (uint8_t)data[end_offset] && g_s1 == (uint8_t)data[end_offset + 1])
 __CPROVER_ensures(ret->size == __CPROVER_old(ret->size) + 4)
 __CPROVER_ensures(ret->data[ret->size - 4] == B64_ENC0(g_s0, g_s1, 0, 2, g_url))
 __CPROVER_ensures(ret->data[ret->size - 3] == B64_ENC1(g_s0, g_s1, 0, 2, g_url))
@@ -91,11 +93,11 @@ __CPROVER_ensures(ret->data[ret->size - 1] == B64_ENC3(g_s0, g_s1, 0, 2, g_url))
 APPEND_ASSIGNS();
 
 /* final quantum of 8 bits -> two characters and "==" */
-void base64_encode_tail1(vstr* ret, const uint8_t* data, size_t end_offset, const char* alphabet)
+void base64_encode_tail1(vstr* ret, const C11_ENC_T* data, size_t end_offset, const char* alphabet)
 RET_APPEND_REQ(4)
 DATA_REQ(end_offset, 1)
 ALPHA_REQ_NONNULL
-__CPROVER_requires(g_s0 == data[end_offset])
+__CPROVER_requires(g_s0 == (uint8_t)data[end_offset])
 __CPROVER_ensures(ret->size == __CPROVER_old(ret->size) + 4)
 __CPROVER_ensures(ret->data[ret->size - 4] == B64_ENC0(g_s0, 0, 0, 1, g_url))
 __CPROVER_ensures(ret->data[ret->size - 3] == B64_ENC1(g_s0, 0, 0, 1, g_url))
@@ -141,12 +143,12 @@ __CPROVER_assigns(g_i, ret->size, __CPROVER_object_whole(ret->data));
 /* one block of four characters (loop body).  The inverse table has to be right at the four characters looked up. */
 #define BLK_LAST (offset == end_offset - 4)
 #define BLK_OK   B64_BLOCK_OK(g_s0, g_s1, g_s2, g_s3, BLK_LAST, g_url)
-void base64_decode_block(vstr* ret, const uint8_t* data, size_t offset, size_t end_offset, const char* inverse_alphabet)
+void base64_decode_block(vstr* ret, const C11_DEC_T* data, size_t offset, size_t end_offset, const char* inverse_alphabet)
 RET_APPEND_REQ(3)
 DATA_REQ(offset, 4)
 __CPROVER_requires(verif_exc == 0 && end_offset <= C11_MAXLEN)
 __CPROVER_requires(__CPROVER_is_fresh(inverse_alphabet, 0x100))
-__CPROVER_requires(g_s0 == data[offset] && g_s1 == data[offset + 1] && g_s2 == data[offset + 2] && g_s3 == data[offset + 3])
+__CPROVER_requires(g_s0 == (uint8_t)data[offset] && g_s1 == (uint8_t)data[offset + 1] && g_s2 == (uint8_t)data[offset + 2] && g_s3 == (uint8_t)data[offset + 3])
 __CPROVER_requires((uint8_t)inverse_alphabet[g_s0] == B64_VAL(g_s0, g_url) && (uint8_t)inverse_alphabet[g_s1] == B64_VAL(g_s1, g_url))
 __CPROVER_requires((uint8_t)inverse_alphabet[g_s2] == B64_VAL(g_s2, g_url) && (uint8_t)inverse_alphabet[g_s3] == B64_VAL(g_s3, g_url))
 __CPROVER_ensures(BLK_OK ? verif_exc == 0 : verif_exc == EXC_invalid_argument)
